@@ -130,7 +130,7 @@ def ev(e, env, oracle):
     raise Stuck("kind " + k)
 
 
-def run(project, sub, init_reg, init_mem, havoc, oracle, max_visits=24, choices=()):
+def run(project, sub, init_reg, init_mem, havoc, oracle, max_visits=24, choices=(), on_block=None, abort_null=False):
     """Run one function concretely. init_reg(name,size,temp)->int, init_mem(addr)->byte,
     havoc(k) -> (reg function, mem function) for the k-th call. Returns the list of observable events."""
     blocks = {b["tid"]: b for b in sub["blocks"]}
@@ -164,7 +164,14 @@ def run(project, sub, init_reg, init_mem, havoc, oracle, max_visits=24, choices=
             trace.append(("leave", tid))
             snapshot("")
             return trace
+        if on_block is not None:
+            on_block(tid, env)
         for d in blk["defs"]:
+            if abort_null and d["k"] in ("load", "store"):
+                a0 = sx(ev(d["address"], env, oracle), 64)
+                if -1024 < a0 < 1024:
+                    trace.append(("nullpage", a0))
+                    return trace
             if d["k"] == "assign":
                 v = ev(d["value"], env, oracle)
                 (temps if d["var"].get("temp") else regs)[(d["var"]["name"], d["var"]["size"])] = v
